@@ -144,13 +144,9 @@ def firstBadIsCorrupt (cfg : SiteCfg) (strict : Bool) : List Rec → Bool
     | some _ => firstBadIsCorrupt cfg strict rs
 
 /-- `<prop>.cli container transport threads layout extras cols samples project strict precision records` -/
-def handleCli (a : List String) (impl : String) (p : String) : Option Verdict :=
-  match a with
-  | [container, _transport, _threads, _layout, _extras, cs, ss, ps, st, pr, rs] => do
-    let cols := splitCsv cs
+def cliVerdict (container : String) (cols : List String) (recs : List Rec) (ss ps st pr : String) (impl : String) (p : String) : Option Verdict := do
     let samples := decodeSamples ss true
     let project ← decodeProject ps
-    let recs ← decodeRecords rs true
     let precision := if pr == "-" then 6 else (pr.toNat?).getD 6
     let args : CreateArgs := { samples := samples, projectShape := project, precision := precision, strict := st == "1" }
     let (o, cfg?) := createExpected args cols recs
@@ -189,6 +185,12 @@ def handleCli (a : List String) (impl : String) (p : String) : Option Verdict :=
       if cls == "ERR" && out == "-" && kindOk then
         pure (.ok s!"{p}-cli-{container}-err-{match o.buildErr, o.err with | some _, _ => "build" | _, some (.strict _ _) => "strict" | _, some (.genotypeError _ _) => "genotype" | _, _ => "?"}")
       else pure (.bad modelDescr)
+
+def handleCli (a : List String) (impl : String) (p : String) : Option Verdict :=
+  match a with
+  | [container, _transport, _threads, _layout, _extras, cs, ss, ps, st, pr, rs] => do
+    let recs ← decodeRecords rs true
+    cliVerdict container (splitCsv cs) recs ss ps st pr impl p
   | _ => none
 
 /-- `c12.same extras cols samples project strict precision records` -> `SAME n class|stdout` -/
